@@ -10,7 +10,7 @@ import time
 from mc.core import Space, HarnessError, raised, VERIF, REPO
 
 ID = "C20"
-RULE = ("operation alphabet = one representative call of every public function/method (137 operations incl. randomised calls under a fixed NumPy "
+RULE = ("operation alphabet = one representative call of every public function/method (139 operations incl. randomised calls under a fixed NumPy "
         "seed and calls that raise); reference = each operation alone in a process forked from the pristine import state (cross-checked against "
         "truly fresh interpreters); explored: every single operation, every ordered pair (no state abstraction), triples over the stateful "
         "operations, and a BFS over canonical module states (data globals, __defaults__/__kwdefaults__, class attributes) where every operation "
